@@ -199,6 +199,7 @@ def run_impl(case, emitter=None):
             h.down = Z.ZMQReceiver(OUT, 'down', lambda m: h.down_got.append(m[0]))
     if s.get('exit_after') is not None:
         cfg['exit_after'] = exit_after_value(case.get('exit_after_form', 'float'), s['exit_after'], h.t0)
+    cfg.update(case.get('cfg_extra') or {})      # options of a user-defined filter (any names): they travel with the lineage START event
     base_ref = Z.ZMQContext.context[1]; base_open = sum(1 for x in world.all_socks if not x.closed)
     real_init = M.MQ.__init__
     def mq_init(self, *a, **kw):
